@@ -560,6 +560,15 @@ static void run(void)
 	}
 	close_seen = eofs[2] || term[2];
     }
+    /* C06: once an attempt has failed, every later call reports that failure (and the same errno on TCP-based transports) */
+    for (int e = 1; e <= 2; e++)
+	if (so[e] && term[e]) {
+	    int k0 = (int)(rnd() % 3);
+	    for (int k = 0; k < 4; k++) {
+		int op = (k0 + k) % 3;
+		if (op == 0) do_finish(e); else if (op == 1) { want_send[e] = sent[e] + 1; do_send(e); } else do_receive(e);
+	    }
+	}
     stepno++;
     fprintf(out, "{\"x\":%ld,\"n\":%ld,\"op\":\"q\",\"e\":0,\"stk\":%d,\"turns\":%d,\"ms\":%ld,\"est\":[%d,%d],\"term\":[%d,%d],"
 	    "\"eofs\":[%d,%d],\"sent\":[%d,%d],\"rcvd\":[%d,%d],\"bado\":[%d,%d],\"acc\":%d,\"cs\":%d,\"rel\":%d,\"rcl\":%d,\"rg\":%d}\n",
